@@ -31,6 +31,9 @@ type CheckRun struct {
 	pkgs     []*ssa.Package
 	loadTime time.Duration
 	results  []*HarnessResult
+	nativeTime time.Duration
+	started  time.Time
+	origPath string
 }
 
 type HarnessResult struct {
@@ -46,6 +49,7 @@ type HarnessResult struct {
 	Validated int
 	ValidationMismatch []string
 	Notes    []string
+	NoNative bool
 }
 
 var pkgClauseRe = regexp.MustCompile(`(?m)^package\s+(\w+)`)
@@ -182,12 +186,17 @@ func (r *CheckRun) harnessCfg(fn *ssa.Function) (Cfg, []string, []string) {
 			}
 		case "note":
 			notes = append(notes, m[2])
+		case "nonative":
+			notes = append(notes, "no native cross-validation: "+m[2])
+			expect = append(expect, "!nonative")
 		}
 	}
 	return cfg, expect, notes
 }
 
 func (r *CheckRun) Execute() int {
+	r.started = time.Now()
+	r.origPath = origPATH
 	if err := r.buildOverlay(); err != nil {
 		fmt.Fprintln(os.Stderr, "overlay:", err)
 		return 2
@@ -227,7 +236,14 @@ func (r *CheckRun) Execute() int {
 	}
 	for _, fn := range entries {
 		cfg, expect, notes := r.harnessCfg(fn)
-		hr := &HarnessResult{Name: fn.Name(), Pkg: fn.Pkg.Pkg.Path(), Cfg: cfg, Expect: expect, Notes: notes}
+		hr := &HarnessResult{Name: fn.Name(), Pkg: fn.Pkg.Pkg.Path(), Cfg: cfg, Notes: notes}
+		for _, e := range expect {
+			if e == "!nonative" {
+				hr.NoNative = true
+			} else {
+				hr.Expect = append(hr.Expect, e)
+			}
+		}
 		hr.PkgDir = strings.TrimPrefix(strings.TrimPrefix(hr.Pkg, "github.com/prometheus/alertmanager"), "/")
 		start := time.Now()
 		ex := NewExplorer(r.prog, fn, cfg)
@@ -344,26 +360,260 @@ type ReplayOutcome struct {
 	Path       string
 	Reproduced bool
 	Detail     string
+	Signature  string
+	Assertion  string
+	Known      string
+}
+
+var harnessFuncRe = regexp.MustCompile(`(?m)^func (Verif\w+)\(\)`)
+
+func (r *CheckRun) tierN() int {
+	if r.Tier == "thorough" {
+		return 1
+	}
+	return 0
+}
+
+// validate replays sampled OK paths and all violating paths natively.
+func (r *CheckRun) validate() (problems []string) {
+	if r.NoReplay {
+		return nil
+	}
+	byDir := map[string][]*replayJob{}
+	maxSamples := 24
+	if r.Tier == "thorough" {
+		maxSamples = 200
+	}
+	for _, hr := range r.results {
+		if hr.NoNative {
+			continue
+		}
+		n := 0
+		for _, p := range hr.Ex.Samples {
+			if p.Witness == nil || n >= maxSamples {
+				continue
+			}
+			n++
+			byDir[hr.PkgDir] = append(byDir[hr.PkgDir], &replayJob{hr: hr, path: p})
+		}
+		for i, p := range hr.Ex.Violations {
+			if p.Witness == nil || i >= 24 {
+				continue
+			}
+			byDir[hr.PkgDir] = append(byDir[hr.PkgDir], &replayJob{hr: hr, path: p})
+		}
+	}
+	for dir, jobs := range byDir {
+		if err := r.runNative(dir, jobs); err != nil {
+			problems = append(problems, err.Error())
+			continue
+		}
+		for _, j := range jobs {
+			if j.out == nil {
+				problems = append(problems, fmt.Sprintf("%s: %s", j.hr.Name, j.err))
+				continue
+			}
+			isViol := j.path.Violated != "" || j.path.Outcome == outcomePanic
+			if !isViol {
+				if msg := compareNative(j.path, j.out); msg != "" {
+					j.hr.ValidationMismatch = append(j.hr.ValidationMismatch, msg+" [witness "+witnessString(j.path)+"]")
+				} else {
+					j.hr.Validated++
+				}
+				continue
+			}
+			ok, detail := violationReproduced(j.path, j.out)
+			ro := ReplayOutcome{Reproduced: ok, Detail: detail, Signature: pathSignature(j.path), Assertion: j.path.Violated}
+			if j.path.Outcome == outcomePanic {
+				ro.Assertion = "no-panic"
+			}
+			if ok {
+				// keep the witness as a replay file
+				os.MkdirAll(filepath.Join(r.Verif, "replay"), 0o755)
+				name := fmt.Sprintf("%s-%s-%d.json", r.Prop, j.hr.Name, len(j.hr.Replays))
+				ro.Path = filepath.Join(r.Verif, "replay", name)
+				b, _ := json.MarshalIndent(makeWitness(r.Prop, j.hr, j.path, r.tierN()), "", " ")
+				os.WriteFile(ro.Path, b, 0o644)
+			}
+			j.hr.Replays = append(j.hr.Replays, ro)
+		}
+	}
+	return problems
 }
 
 func (r *CheckRun) finish() int {
 	code := 0
+	bad := func(format string, a ...any) {
+		fmt.Printf("  INCONCLUSIVE: "+format+"\n", a...)
+		code = 2
+	}
+	for _, p := range r.validate() {
+		bad("native validation: %s", p)
+	}
+	known := r.loadKnown()
+	violations := 0
+	knownHits := map[string]bool{}
 	for _, hr := range r.results {
-		if len(hr.Ex.Problems) > 0 || hr.Ex.UnknownQ > 0 {
-			code = 2
+		ex := hr.Ex
+		if len(ex.Problems) > 0 {
+			bad("%s: %d paths hit a bound / engine limit (first: %s)", hr.Name, len(ex.Problems), firstLines(ex.Problems[0].Msg, 2))
+		}
+		if ex.UnknownQ > 0 {
+			bad("%s: %d solver queries returned unknown", hr.Name, ex.UnknownQ)
 		}
 		for _, tag := range hr.Expect {
 			tag = strings.TrimPrefix(tag, "reach=")
-			if hr.Ex.ReachStats[tag] == 0 {
-				fmt.Printf("  VACUITY: %s never reached %q\n", hr.Name, tag)
-				code = 2
+			if ex.ReachStats[tag] == 0 {
+				bad("vacuity: %s never reached %q", hr.Name, tag)
+			}
+		}
+		for _, m := range hr.ValidationMismatch {
+			bad("%s: engine/native mismatch: %s", hr.Name, m)
+		}
+		if len(ex.Violations) > 0 && r.NoReplay {
+			for _, v := range ex.Violations {
+				fmt.Printf("  unreplayed counterexample in %s: %s\n", hr.Name, firstLines(v.Msg, 2))
+			}
+			violations += len(ex.Violations)
+		}
+		for _, ro := range hr.Replays {
+			if !ro.Reproduced {
+				bad("%s: counterexample for %s did not reproduce natively (%s)", hr.Name, ro.Assertion, ro.Detail)
+				continue
+			}
+			matched := false
+			for _, k := range known.Findings {
+				if k.Property == r.Prop && k.Harness == hr.Name && k.Assertion == ro.Assertion {
+					if ok, _ := regexp.MatchString(k.Signature, ro.Signature); ok {
+						matched = true
+						if !knownHits[k.What] {
+							knownHits[k.What] = true
+							fmt.Printf("KNOWN-FINDING: property=%s %s\n", r.Prop, k.What)
+						}
+						break
+					}
+				}
+			}
+			if !matched {
+				violations++
+				fmt.Printf("VIOLATION property=%s replay=%s\n", r.Prop, ro.Path)
+				fmt.Printf("  harness=%s assertion=%s signature=[%s] %s\n", hr.Name, ro.Assertion, ro.Signature, ro.Detail)
 			}
 		}
 	}
-	for _, hr := range r.results {
-		if len(hr.Ex.Violations) > 0 && code == 0 {
-			code = 1
-		}
+	if err := r.writeEvidence(violations, code); err != nil {
+		bad("cannot write evidence: %v", err)
+	}
+	if violations > 0 {
+		return 1
 	}
 	return code
+}
+
+func (r *CheckRun) writeEvidence(violations, code int) error {
+	type hsum struct {
+		Harness   string         `json:"harness"`
+		Package   string         `json:"package"`
+		Paths     int            `json:"paths"`
+		Outcomes  map[string]int `json:"outcomes"`
+		Asserts   map[string]map[string]int `json:"assertion_queries"`
+		Reached   map[string]int `json:"reached"`
+		Bounds    map[string]int `json:"bounds"`
+		Queries   int            `json:"queries"`
+		SolverS   float64        `json:"solver_s"`
+		WallS     float64        `json:"wall_s"`
+		Validated int            `json:"paths_validated_natively"`
+		Notes     []string       `json:"notes,omitempty"`
+	}
+	var hs []hsum
+	states, trans, validated, queries := 0, 0, 0, 0
+	solverS := 0.0
+	funcs := map[string]bool{}
+	var samples []any
+	discharged := 0
+	for _, hr := range r.results {
+		ex := hr.Ex
+		h := hsum{Harness: hr.Name, Package: hr.Pkg, Paths: ex.Paths, Outcomes: map[string]int{}, Asserts: map[string]map[string]int{}, Reached: ex.ReachStats,
+			Queries: ex.Queries, SolverS: ex.SolverTime.Seconds(), WallS: hr.Wall.Seconds(), Validated: hr.Validated, Notes: hr.Notes,
+			Bounds: map[string]int{"unwind": hr.Cfg.Unwind, "max_decisions": hr.Cfg.MaxDecisions, "max_paths": hr.Cfg.MaxPaths, "max_steps": hr.Cfg.MaxSteps,
+				"preemption_bound": hr.Cfg.PreemptBound, "max_goroutines": hr.Cfg.MaxGoroutines, "max_timer_fires": hr.Cfg.MaxTimerFires, "deepest_decision_depth": ex.MaxDecDepth}}
+		for o, n := range ex.ByOutcome {
+			h.Outcomes[o.String()] = n
+		}
+		for n, st := range ex.AssertStats {
+			h.Asserts[n] = map[string]int{"unsat_holds": st.Holds, "sat_violated": st.Violated, "unknown": st.Unknown}
+			discharged += st.Holds
+		}
+		hs = append(hs, h)
+		states += ex.Paths
+		trans += ex.Transitions
+		validated += hr.Validated
+		queries += ex.Queries
+		solverS += ex.SolverTime.Seconds()
+		for f := range ex.Funcs {
+			funcs[f] = true
+		}
+		for i, p := range ex.Samples {
+			if i >= 2 {
+				break
+			}
+			samples = append(samples, map[string]any{"harness": hr.Name, "decisions": decisionString(p.Decisions), "witness": witnessString(p), "reached": p.Reached})
+		}
+	}
+	if trans == 0 {
+		trans = 1
+	}
+	fl := make([]string, 0, len(funcs))
+	for f := range funcs {
+		fl = append(fl, f)
+	}
+	sort.Strings(fl)
+	seed, _ := strconv.Atoi(os.Getenv("VERIF_SEED"))
+	ev := map[string]any{
+		"property_id": r.Prop,
+		"tier":        r.Tier,
+		"seed":        seed,
+		"level":       "model_checking",
+		"wall_s":      time.Since(r.started).Seconds(),
+		"violations":  violations,
+		"coverage": map[string]any{
+			"states":                        states,
+			"transitions":                   trans,
+			"traces_validated_against_impl": validated,
+			"samples":                       samples,
+			"exhaustive":                    code == 0,
+			"explanation":                   "states = feasible symbolic paths through the real SSA of /repo completed within the bounds; transitions = branch/schedule/choice decisions; each assertion query PC AND NOT(assert) was decided by the SMT solver for all values of the symbolic inputs on that path",
+			"assertion_queries_unsat":       discharged,
+			"solver_queries":                queries,
+			"solver_s":                      solverS,
+			"solver":                        "z3 4.8.12 (incremental, one process per worker)",
+			"functions_encoded":             fl,
+			"harnesses":                     hs,
+			"load_s":                        r.loadTime.Seconds(),
+			"native_replay_s":               r.nativeTime.Seconds(),
+			"verdict":                       verdictWord(map[bool]int{true: 1, false: code}[violations > 0]),
+		},
+		"assumptions": r.assumptions(),
+	}
+	os.MkdirAll(filepath.Join(r.Verif, "evidence"), 0o755)
+	b, err := json.MarshalIndent(ev, "", " ")
+	if err != nil {
+		return err
+	}
+	return os.WriteFile(filepath.Join(r.Verif, "evidence", r.Prop+".json"), b, 0o644)
+}
+
+func (r *CheckRun) assumptions() []string {
+	a := []string{
+		"bounded: only paths within the per-harness bounds listed under coverage.harnesses[].bounds are covered; exceeding a bound fails the check (never a pass)",
+		"stubs: time (virtual clock, no monotonic reading, instants 1970..2200), sync/atomic/sync.Map (linearizable models), context, logging/metrics/tracing (no-ops), protobuf codec (opaque, assumed to round-trip), uuid/rand (fresh distinct values), regexp (native on concrete strings)",
+		"concurrency: goroutines switch only at synchronisation operations (channel, mutex, sync.Map, atomic, timer, context); data races on plain memory are outside the claim",
+		"map iteration follows insertion order",
+	}
+	for _, hr := range r.results {
+		for _, n := range hr.Notes {
+			a = append(a, hr.Name+": "+n)
+		}
+	}
+	return a
 }
